@@ -175,6 +175,13 @@ def dtype_token(schema):
     return schema.kind.__name__ + ("?" if schema.nullable else "")
 
 
+def _overwrite(v, filler):
+    for i, x in enumerate(list(v)):
+        if x is None:
+            v[i] = filler
+    return v
+
+
 def values(out_path):
     """every dtype x special value x position class x None: repr returns a string, states the true count and dtype"""
     F, ex = Fails(), 0
@@ -209,6 +216,19 @@ def values(out_path):
                                 F.add("footer", case, foot, f"# {n} element vector <{dtype_token(v.schema())}>", what="vector")
                         if not views_equal(before, vec_view(v)):
                             F.add("operands_unchanged", case, "repr changed the vector", "unchanged")
+                        # the dtype in the footer is the vector's dtype - also for a nullable vector that holds no None at the
+                        # moment (the gaps were masked away, or overwritten)
+                        if with_none and n > 1:
+                            for how, mkw in (("masked", lambda: v[[x is not None for x in vals]]), ("overwritten", lambda: _overwrite(Vector(list(vals), name="x"), filler))):
+                                stw, w, ew = attempt(mkw)
+                                if stw != "ok" or not isinstance(w, Vector) or len(w) == 0:
+                                    continue
+                                stw, rw, ew = attempt(lambda: repr(w))
+                                ex += 1
+                                if stw == "ok" and isinstance(rw, str):
+                                    m = VEC_FOOT.match(rw.split("\n")[-1])
+                                    if not m or int(m.group(1)) != len(w) or (m.group(2) + (m.group(3) or "")) != dtype_token(w.schema()):
+                                        F.add("footer", dict(case, gaps=how), rw.split("\n")[-1], f"# {len(w)} element vector <{dtype_token(w.schema())}>", what="vector")
                         # the same column inside a table
                         st1, t, e1 = attempt(lambda: Table([Vector(list(vals), name="x"), Vector(list(range(n)), name="i")]))
                         if st1 != "ok":
@@ -264,6 +284,22 @@ def values(out_path):
                             body = [ln for ln in lines if ln.startswith(val) and (val.strip() or ln[:len(val)] == val)]
                             if val.strip() and not body:
                                 F.add("repr_data", case, pic, "a body line starting with the stored text " + repr(val))
+    # repr has no memory: whatever was printed before, under whatever preview limit, the picture is that of a fresh equal object
+    # under the limit in force NOW
+    for nrows in (3, 10, 30):
+        for first, second in ((12, 4), (6, 40), (4, 12), (None, 6), (40, None), (2, 3)):
+            cols = {"a": list(range(nrows)), "b": [str(i) for i in range(nrows)]}
+            t, v = Table({k: list(x) for k, x in cols.items()}), Vector(list(cols["a"]), name="a")
+            set_repr_rows(first)
+            attempt(lambda: (repr(t), repr(v)))
+            set_repr_rows(second)
+            got = attempt(lambda: (repr(t), repr(v)))
+            want = attempt(lambda: (repr(Table({k: list(x) for k, x in cols.items()})), repr(Vector(list(cols["a"]), name="a"))))
+            set_repr_rows(None)
+            ex += 1
+            if got[0] != want[0] or (got[0] == "ok" and got[1] != want[1]):
+                F.add("preview_rows", {"rows": nrows, "printed first under limit": first, "then under limit": second},
+                      got[1][0] if got[0] == "ok" else repr(got[2]), want[1][0] if want[0] == "ok" else repr(want[2]))
     # nested vectors of unequal length inside an object vector
     for inner in ([Vector([1, 2]), Vector([1, 2, 3])], [Vector([]), Vector([1])], [Vector(["a"]), 5, None]):
         case = {"dtype": "object", "special": "nested vectors", "n": len(inner)}
